@@ -16,6 +16,13 @@ use serde_json::{json, Value};
 
 use crate::sq::{flip_last, ods_with, panic_kind, push_violations, Sq, APP};
 
+trait Pipe: Sized {
+    fn pipe<R>(self, f: impl FnOnce(Self) -> R) -> R {
+        f(self)
+    }
+}
+impl<T> Pipe for T {}
+
 fn us(v: &Value) -> usize {
     v.as_u64().unwrap() as usize
 }
@@ -104,8 +111,10 @@ pub fn replay(args: &Args) {
         let mut0 = c["mut"][0].as_str().unwrap();
         let q: Vec<usize> = c["q"].as_array().unwrap().iter().map(us).collect();
         let t = us(&c["t"]);
-        let rows: Vec<usize> = c["rows"].as_array().unwrap().iter().map(us).collect();
-        let es = c["es"].as_array().unwrap();
+        let single = cls == "single";
+        let empty = vec![];
+        let rows: Vec<usize> = if single { vec![] } else { c["rows"].as_array().unwrap().iter().map(us).collect() };
+        let es = if single { &empty } else { c["es"].as_array().unwrap() };
         for w in crate::sample::widths(args, wabs) {
             let b = w / wabs;
             let key = (w, q.clone());
@@ -182,6 +191,84 @@ pub fn replay(args: &Args) {
                 }
             }
 
+            if single {
+                // RowNamespaceData::verify(id(row, namespace), dah) for one row, whether or not its range covers
+                // the namespace; shares and proof come from wherever the case says
+                let e = &c["e"];
+                for off in offs.clone() {
+                    let row = us(&c["row"]) * b + off;
+                    let prow = us(&e["prow"]) * b + off;
+                    let absence = e["kind"] == "absence";
+                    let (lo, hi) = if absence {
+                        let p = us(&e["lo"]) * b;
+                        (p, p + 1)
+                    } else {
+                        ((us(&e["lo"]) * b) as i64 + is(&e["dl"]), (us(&e["hi"]) * b) as i64 + is(&e["dh"]))
+                            .pipe(|(a, z)| (a as usize, z as usize))
+                    };
+                    if lo >= hi || hi > sq.w {
+                        sum.add("skipped_unbuildable", 1);
+                        continue;
+                    }
+                    let proof_ent = CEnt { row: prow, lo, hi, absence, with_shares: false, alt: false };
+                    let mut raw = build_raw(sq, &proof_ent).unwrap();
+                    let mut coords = vec![];
+                    for sh in e["shares"].as_array().unwrap() {
+                        let (r2, c2) = (us(&sh[1]) * b + off, us(&sh[2]));
+                        for col in c2 * b..(c2 + 1) * b {
+                            let mut bytes = sq.share_bytes(r2, col);
+                            if sh[0] == "alt" && col == c2 * b {
+                                bytes = flip_last(bytes);
+                            }
+                            raw.shares.push(RawShare { data: bytes });
+                            coords.push((r2, col));
+                        }
+                    }
+                    let rid = celestia_types::row_namespace_data::RowNamespaceDataId::new(ns, row as u16, height).unwrap();
+                    let wire = match catch(|| {
+                        celestia_types::row_namespace_data::RowNamespaceData::from_raw(rid, raw.clone()).and_then(|d| d.verify(rid, dah))
+                    }) {
+                        Ok(Ok(())) => "accept".to_string(),
+                        Ok(Err(_)) => "reject".to_string(),
+                        Err(p) => format!("panic: {p}"),
+                    };
+                    let mem = (|| {
+                        let proof = NamespaceProof::try_from(raw.proof.clone()?).ok()?;
+                        let mut shares = vec![];
+                        for (sh, (r2, col)) in raw.shares.iter().zip(&coords) {
+                            let s = if *r2 < sq.k && *col < sq.k { celestia_types::Share::from_raw(&sh.data) } else { celestia_types::Share::parity(&sh.data) };
+                            shares.push(s.ok()?);
+                        }
+                        Some(celestia_types::row_namespace_data::RowNamespaceData { proof, shares })
+                    })();
+                    let direct = match mem {
+                        Some(d) => match catch(|| d.verify(rid, dah)) {
+                            Ok(Ok(())) => "accept".to_string(),
+                            Ok(Err(_)) => "reject".to_string(),
+                            Err(p) => format!("panic: {p}"),
+                        },
+                        None => "reject".to_string(),
+                    };
+                    for (path, got) in [("wire", wire), ("direct", direct)] {
+                        *by_width.entry(w).or_default() += 1;
+                        let keyn = if demand != "either" { Some(format!("{ci}/{w}/{off}/{path}")) } else { None };
+                        sum.case("C06", keyn, || json!({"case": c, "width": w, "off": off, "path": path, "got": got}));
+                        let bad = got.starts_with("panic") || (demand != "either" && got != demand);
+                        if bad {
+                            let gotk = if got.starts_with("panic") { panic_kind(&got) } else { got.clone() };
+                            let class = json!({"kind": "nsdata", "stage": "row-verify", "path": path, "mut": mut0, "demand": demand, "got": gotk,
+                                               "row_covers_namespace": c["covered"], "proof": e["kind"], "with_shares": !coords.is_empty()});
+                            let ck = class.to_string();
+                            *classes.entry(ck.clone()).or_default() += 1;
+                            viols.push((ck, json!({"why": format!("[{path}] width {w} off {off} q {q:?} t {t} RowNamespaceData::verify(row {row}) single/{}: demanded {demand}, code says {got}", c["mut"]),
+                                                   "class": class, "case": c, "width": w, "got": got})));
+                        } else if path == "wire" && b == 1 && got != predict {
+                            sum.drift("C06", json!({"case": c, "width": w, "got": got, "predict": predict}));
+                        }
+                    }
+                }
+                continue;
+            }
             for off in offs {
                 // expand the abstract list: per abstract entry, b concrete ones; member `off` is the scaled
                 // entry, the others are the honest entries of the block it will be checked against
